@@ -199,6 +199,20 @@ class Case:
                     if all(abs(got[j] - lin[j]) <= 1e-3 * (lp if j < 3 else lv) for j in range(6)):
                         sig = "straight-line-fallback:bracket-overflow"
                         what = what + " [= straight-line motion x0 + v0 T]"
+                    elif what.startswith("one step of") and T == line[2] and math.sqrt(line[5] / abs(line[4])) * abs(T / 2) / (abs(line[4]) * (line[3] - 1)) > 700:
+                        # an integrator step calls the solver twice with T/2: the fallback may be taken in one of the two halves only
+                        mu_ = line[5]
+                        h1 = [float(v) for v in kepler_exact(mu_, s0[:3], s0[3:], T / 2)]
+                        c1 = [h1[j] + h1[j + 3] * T / 2 for j in range(3)] + h1[3:]              # exact half, then the line
+                        l1 = [s0[j] + s0[j + 3] * T / 2 for j in range(3)] + list(s0[3:])
+                        c2 = [float(v) for v in kepler_exact(mu_, l1[:3], l1[3:], T / 2)]         # the line, then an exact half
+                        for cand in (c1, c2):
+                            cp = max(abs(v) for v in cand[:3])
+                            cv = max(abs(v) for v in cand[3:])
+                            if all(abs(got[j] - cand[j]) <= 1e-3 * (cp if j < 3 else cv) for j in range(6)):
+                                sig = "straight-line-fallback:bracket-overflow"
+                                what = what + " [= straight-line motion x0 + v0 T/2 in one of the two half steps, exact motion in the other]"
+                                break
                 V.append((sig, "%s: component %d is %r, the exact Kepler orbit gives %r (|diff| %.3g, tolerance %.3g = %g x effect of 1 ulp in the inputs) [%s]" % (what, k, got[k], ref[k], abs(got[k] - ref[k]), tol, K, tag)))
                 return
 
